@@ -3,6 +3,7 @@ package profiles
 import (
 	"bytes"
 	"fmt"
+	"os"
 	"runtime"
 	"strings"
 	"testing"
@@ -63,6 +64,10 @@ type Corrupt struct {
 	Match string  `json:"match"`
 	Nth   int     `json:"nth"`
 	With  Payload `json:"with"`
+	// Repeat > 1: this many replies in a row are replaced, starting with the Nth (then the node is honest again)
+	Repeat int `json:"repeat,omitempty"`
+	// SelfMoved: the replacement is a well-formed "-MOVED <slot of the key> <this node's own address>"
+	SelfMoved bool `json:"self_moved,omitempty"`
 }
 
 type C11Scenario struct {
@@ -286,6 +291,32 @@ func (p c11) Gen(r *simhook.Rand, tier string, idx int) harness.Scenario {
 		sc.Conns[0].Early = true
 	}
 	sc.AdvAfter = r.Intn(120)
+	if r.Chance(1, 250) || os.Getenv("VERIF_FORCE_CLASS") == "self-moved-flood" { // (the variable is a development aid: aim a whole tier at one class)
+		// class "self-moved-flood": a node answers a run of keyed reads with a redirection that names the node itself
+		// while a very wide MGET keeps more requests in flight on its connection than its two 1024-entry queues hold;
+		// afterwards the node is honest.  The redirections are well-formed, so nothing may stay stuck once they stop.
+		sc.Class = "self-moved-flood"
+		sc.Env.Compression = nil
+		tag := fmt.Sprintf("{sm%d}", r.Intn(50))
+		node := cluster.Slot([]byte(tag)) / (cluster.NumSlots / m)
+		if node >= m {
+			node = m - 1
+		}
+		n := 2060 + r.Intn(400)
+		a := world.Bins("MGET")
+		for i := 0; i < n; i++ {
+			a = append(a, world.Bin(fmt.Sprintf("%s%d", tag, i)))
+		}
+		sc.Conns = []ConnScript{{Name: "flood", Reqs: []world.Request{{Args: a}}}, canary}
+		sc.Corrupt = []Corrupt{{Node: node, Match: "get", Nth: 1 + r.Intn(1200), Repeat: 1 + r.Intn(3000), SelfMoved: true}}
+		pr := ConnScript{Name: "p-canary"}
+		for _, k := range all {
+			pr.Reqs = append(pr.Reqs, world.Request{Args: world.Bins("GET", k), Wait: true})
+		}
+		sc.Probes = []ConnScript{pr}
+		sc.IdleFaults = true
+		return sc
+	}
 	switch r.Intn(3) {
 	case 0:
 		sc.Class = "client"
@@ -366,11 +397,23 @@ func (p c11) Run(t *testing.T, s harness.Scenario) harness.Outcome {
 				}
 				prev := n.ReplyHook
 				fired := false
+				left := c.Repeat
 				n.ReplyHook = func(nc *cluster.Conn, args [][]byte, reply []byte) ([]byte, bool) {
 					name := strings.ToLower(string(args[0]))
 					if !fired && !honest && name == c.Match {
 						counts[c.Node][c.Match+fmt.Sprint(ci)]++
-						if counts[c.Node][c.Match+fmt.Sprint(ci)] == c.Nth {
+						if c.SelfMoved && len(args) > 1 && counts[c.Node][c.Match+fmt.Sprint(ci)] >= c.Nth {
+							if left == c.Repeat {
+								corruptLeft--
+								delivered++
+							}
+							left--
+							fired = left <= 0
+							w.faultsFired["self-moved"]++
+							w.lastFault = time.Now()
+							return []byte(fmt.Sprintf("-MOVED %d %s\r\n", cluster.Slot(args[1]), n.Addr)), true
+						}
+						if !c.SelfMoved && counts[c.Node][c.Match+fmt.Sprint(ci)] == c.Nth {
 							fired = true // the adversary turns honest afterwards
 							corruptLeft--
 							delivered++
